@@ -55,6 +55,11 @@ func c17Argument(msg, path string) (string, bool) {
 
 func (c17) Exec(seed int64, i int, tier string) Record {
 	r := CaseRng(seed, "C17", i)
+	if i%1500 == 777 {
+		// class huge (b12_helpers.go): a quoted member name of 65 600..70 000 characters right after `$`; the outcome for the rest
+		// must be the outcome with the name `a` (same kind; syntax errors at the shifted position). The grammar models are not asked.
+		return c17HugeCase(r)
+	}
 	enum := c02Enum()
 	var s, gen string
 	// a slice of the bounded-exhaustive reduced grammar first, then random strings
